@@ -5,7 +5,7 @@
 From Coq Require Import String Ascii.
 From Coq Require Import List Arith Bool Lia ZArith QArith.
 Import ListNotations.
-From TF Require Import Tree TreeIdx TreeEval TreeProofs TreeProofs2 TreeEvalProofs TreeCR C09Check.
+From TF Require Import Tree TreeIdx TreeEval TreeProofs TreeProofs2 TreeEvalProofs TreeCR TreeCRk C09Check.
 From TFG Require Import GenSymTable.
 Open Scope nat_scope.
 
@@ -111,17 +111,41 @@ Theorem C09_common_region_spec : forall (sym : Type) (arity : sym -> nat) (t1 t2
 Proof. intros sym arity. exact (common_region_two_spec arity). Qed.
 Print Assumptions C09_common_region_spec.
 
-(* The k-tree walk  common_region(trees)  (model: TreeIdx.common_region_k) is NOT proved equal to
-   the recursive definition for all k; full statement kept here:
+(* The k-tree walk  common_region(trees)  (model: TreeIdx.common_region_k, the column scan with
+   find_end jumps): for EVERY k >= 1 and every tuple of well-formed trees it returns exactly the
+   recursive common region of the k trees — every scanned column (one position per tree) and the
+   border columns.  TreeCRk.crk_rec is the recursive definition: the tuple of roots is a common
+   column; iff ALL k root arities agree the region continues into the i-th arguments of all trees
+   (for every i), otherwise the column is a border.  Any fuel d > depth of the first tree gives
+   the same crk_rec. *)
+Theorem C09_common_region_k_spec : forall (sym : Type) (arity : sym -> nat) (T0 : tree sym) (Ts' : list (tree sym)) (d : nat),
+  Forall (fun t => wft arity t = true) (T0 :: Ts') -> depth T0 < d ->
+  common_region_k (map (fun t => nargs arity (flatten t)) (T0 :: Ts'))
+  = Some (region_of (crk_rec arity d (T0 :: Ts') (map (fun _ => 0) (T0 :: Ts')))).
+Proof. intros sym arity. exact (common_region_k_spec arity). Qed.
+Print Assumptions C09_common_region_k_spec.
 
-     forall ts, ts <> [] -> Forall (fun t => wft arity t = true) ts ->
-       common_region_k (map (fun t => nargs arity (flatten t)) ts) = Some (cr_rec_k ts)
+(* the recursive definition does not depend on the fuel beyond the depth of the first tree *)
+Theorem C09_crk_rec_fuel : forall (sym : Type) (arity : sym -> nat) (d d' : nat) (t0 : tree sym) ts' os,
+  wft arity t0 = true -> depth t0 < d -> depth t0 < d' ->
+  crk_rec arity d (t0 :: ts') os = crk_rec arity d' (t0 :: ts') os.
+Proof. intros sym arity. exact (crk_rec_fuel arity). Qed.
+Print Assumptions C09_crk_rec_fuel.
 
-   What is established instead: (a) the correspondence compares the implementation, the model
-   common_region_k and an independent recursive definition on all pairs of trees <= 5 nodes and on
-   random k-tuples, k <= 4 (checkers chk_crk, chk_crk_vs_cr2); (b) the bounded sweep below: on
-   every pair of well-formed arity arrays with at most 5 nodes (arities 0..3) the k-tree walk returns the same
-   region as the two-tree walk (which C09_common_region_spec ties to the recursive definition). *)
+(* it computes: f(g(x),y), f(x,h(y,z)), f(g(x),y) — columns (0,0,0) (1,1,1) (3,2,3), borders at
+   (1,1,1) [arities 1,0,1] and (3,2,3) [arities 0,2,0] *)
+Example C09_common_region_k_nonvacuous :
+  let t1 := Node 2 [Node 1 [Node 0 []]; Node 0 []] in
+  let t2 := Node 2 [Node 0 []; Node 2 [Node 0 []; Node 0 []]] in
+  Forall (fun t => wft (fun n : nat => n) t = true) [t1; t2; t1] /\
+  common_region_k (map (fun t => nargs (fun n : nat => n) (flatten t)) [t1; t2; t1])
+  = Some ([[0; 0; 0]; [1; 1; 1]; [3; 2; 3]], [[1; 1; 1]; [3; 2; 3]]).
+Proof. cbv zeta. split; [repeat constructor|vm_compute; reflexivity]. Qed.
+Print Assumptions C09_common_region_k_nonvacuous.
+
+(* SUPERSEDED by C09_common_region_k_spec (kept as a regression sweep): on every pair of
+   well-formed arity arrays with at most 5 nodes (arities 0..3) the k-tree walk returns the same
+   region as the two-tree walk. *)
 Theorem C09_common_region_k_partial_le5 :
   forallb (fun a1 => forallb (fun a2 => crk_agrees_cr2 a1 a2) (shapes_upto 5)) (shapes_upto 5) = true.
 Proof. vm_compute. reflexivity. Qed.
